@@ -13,8 +13,10 @@ import SaModel.Props.C01Refine
 /-
 C03 — every produced array is a well-formed Arrow array of the declared field.
 
-  C03_wf                 toMarrow ext fields rows = ok arrs → one array per field, each `Spec.WF` for its field and of
-                         `rows.length` rows (explicit assumptions on schema / rows / Ext: see the section header there)
+  C03_wfS                toMarrow ext fields rows = ok arrs → one array per field, each `Spec.WFS` (structurally valid) for its
+                         field and of `rows.length` rows (explicit assumptions on schema / rows / Ext: see the section header
+                         there).  TYPE EQUALITY (`Spec.WF = WFS ∧ typeOf a = f.dataType`): `Props.C01.C03_wf'`
+                         (Props/C01Obs.lean) and Props/C03Typed.lean.
   toMarrow_decode_state  the arrays decode to exactly the columns the final builder state holds (every family)
   (… which are the documented rows `interpRow` of the records: `Props.C01.C01_build_decode`, Props/C01.lean)
 built from the physical layer proved in Lemmas/{Bits,Utf8,FloatBounds,C03*}.lean — `finish_decodeP`/`finish_decode` (the
@@ -235,7 +237,7 @@ theorem map_three_children_pinned_not_wf :
     ∃ (b : B) (a : Arr),
       b = .map "$.m" { entriesName := "entries", sorted := false, keys := ⟨"key", false, []⟩, values := ⟨"value", false, []⟩ }
         none [0] (.leaf "$.m.entries.key" (.int .i32) none []) (.leaf "$.m.entries.value" (.int .i32) none []) ∧
-      finish {} b = .ok a ∧ WF exMap3 a = false :=
+      finish {} b = .ok a ∧ WFS exMap3 a = false :=
   ⟨_, _, rfl, rfl, by decide⟩
 
 /-- **fixed finding (Dictionary with a floating-point key type), repaired code** (repo fix 7359431): `build_builder`
@@ -255,7 +257,7 @@ theorem dictionary_float_keys_pinned_not_wf :
     ∃ (b0 b : B) (a : Arr),
       b0 = .dictionary "$.d" (.leaf "$.d.key" .f32 none []) (.bytes "$.d.value" .utf8 none [0] []) [] ∧
       push {} b0 (.str "") = .ok b ∧ finish {} b = .ok a ∧
-      WF (.mk "d" (.dictionary .float32 .utf8) false []) a = false := by
+      WFS (.mk "d" (.dictionary .float32 .utf8) false []) a = false := by
   refine ⟨.dictionary "$.d" (.leaf "$.d.key" .f32 none []) (.bytes "$.d.value" .utf8 none [0] []) [],
     .dictionary "$.d" (.leaf "$.d.key" .f32 none [0]) (.bytes "$.d.value" .utf8 none [0, 0] []) [""],
     .dictionary (.prim .float32 none [0]) (.bytes .utf8 none [0, 0] []), rfl, ?_, ?_, by decide⟩
@@ -325,7 +327,7 @@ theorem toMarrow_split (ext : Ext) (fields : List Field) (rows : List SVal) (arr
         cases h
         exact ⟨rest, rfl⟩
 
-/-- **C03 from facts about the final builder state** (lemma; the assembled theorem is `C03_wf` below): given the
+/-- **C03 from facts about the final builder state** (lemma; the assembled theorem is `C03_wfS` below): given the
 state invariant `WFB root`, the shape relation `BuiltFor (struct fields) false root`, `Sound root` and `WFX root`,
 every array `to_marrow` returns is a well-formed array of its field, there is one array per field, and all arrays have
 the same number of rows. -/
@@ -338,7 +340,7 @@ theorem C03_wf_of_root (ext : Ext) (fields : List Field) (rows : List SVal) (arr
     (h : toMarrow ext fields rows = .ok arrs) :
     arrs.length = fields.length ∧
     ∃ n : Nat, ∀ (j : Nat) (f : Field) (a : Arr), fields[j]? = some f → arrs[j]? = some a →
-      WF f a = true ∧ (decodeAll a).length = n := by
+      WFS f a = true ∧ (decodeAll a).length = n := by
   obtain ⟨root, hrun, rest, hba⟩ := toMarrow_split ext fields rows arrs h
   have hw := hwfb root hrun
   have hb := hshape root hrun
@@ -499,12 +501,14 @@ With agent-refine's theorems merged (`Build.push_takeRest`, `Props.C01.runRows_r
 (the former size assumption `ViewSmall` is now derived: the view builders refuse lengths / offsets beyond `i32::MAX`, the
 state invariant `WFB` carries the buffer bound — `Build.WFB_small`) -/
 
-/-- **C03.**  Every array `to_marrow` returns is a well-formed array of its field (`Spec.WF`: data type equal to the
-field's including child names / nullability / metadata / parameters; bitmap present iff nullable with exactly ⌈len/8⌉
+/-- **C03, structural half** (`Safe` version; the headline with type equality is `Props.C01.C03_wf'`, Props/C01Obs.lean).
+Every array `to_marrow` returns is a structurally valid array of its field (`Spec.WFS`: data type compatible with the
+field's — child names / nullability / metadata / parameters, EXCEPT the union mode and the nullability / metadata of a Map's
+entries field, which only `Spec.WF` = `WFS ∧ typeOf a = f.dataType` compares; bitmap present iff nullable with exactly ⌈len/8⌉
 bytes and clear padding; offsets start at 0, never decrease, end at the child length and stay within i32/i64; fixed-size
 child lengths; type ids, dense offsets and dictionary keys in range; string data valid UTF-8; values within their
 physical range), there is exactly one array per field, and every array has `rows.length` rows. -/
-theorem C03_wf (ext : Ext) (fields : List Field) (rows : List SVal) (arrs : List Arr)
+theorem C03_wfS (ext : Ext) (fields : List Field) (rows : List SVal) (arrs : List Arr)
     (hschema : ∀ f ∈ fields, Lemmas.C03.SchemaOKF f)
     (hsafe : ∀ root0, newRoot fields = .ok root0 → Safe root0)
     (hext : Lemmas.C03.ExtOK ext)
@@ -512,7 +516,7 @@ theorem C03_wf (ext : Ext) (fields : List Field) (rows : List SVal) (arrs : List
     (h : toMarrow ext fields rows = .ok arrs) :
     arrs.length = fields.length ∧
     ∀ (j : Nat) (f : Field) (a : Arr), fields[j]? = some f → arrs[j]? = some a →
-      WF f a = true ∧ (decodeAll a).length = rows.length := by
+      WFS f a = true ∧ (decodeAll a).length = rows.length := by
   obtain ⟨root, hrun, rest, hba⟩ := toMarrow_split ext fields rows arrs h
   -- the fresh root
   have h0 : ∃ root0, newRoot fields = .ok root0 := by
@@ -603,7 +607,7 @@ theorem All2_get {α β} {R : α → β → Prop} : ∀ {l1 : List α} {l2 : Lis
 /-! ### a worked instance: the hypotheses are jointly satisfiable on a real run
 
 Two records for the schema `{a: Int32?, l: List<Int8>}` (second record without `a`).  The model run is evaluated by
-`decide` (`exRun`), `to_marrow` succeeds (`exOk`), and every hypothesis of `C03_wf` is discharged: an unconditional instance. -/
+`decide` (`exRun`), `to_marrow` succeeds (`exOk`), and every hypothesis of `C03_wfS` is discharged: an unconditional instance. -/
 
 def exFields : List Field := [.mk "a" .int32 true [], .mk "l" (.list (.mk "element" .int8 false [])) false []]
 def exRows : List SVal :=
@@ -629,12 +633,12 @@ theorem exOk : (toMarrow {} exFields exRows).isOk = true := by
   rw [toMarrow_eq, exRun]
   simp [exRoot, buildArrays, finishFields, finish, bind, Except.bind, pure, Except.pure, R.isOk]
 
-/-- the instance, with every hypothesis of `C03_wf` discharged: both arrays are well formed and have 2 rows -/
+/-- the instance, with every hypothesis of `C03_wfS` discharged: both arrays are well formed and have 2 rows -/
 example : ∀ arrs, toMarrow {} exFields exRows = .ok arrs →
     arrs.length = exFields.length ∧ ∀ (j : Nat) (f : Field) (a : Arr), exFields[j]? = some f →
-      arrs[j]? = some a → WF f a = true ∧ (decodeAll a).length = exRows.length := by
+      arrs[j]? = some a → WFS f a = true ∧ (decodeAll a).length = exRows.length := by
   intro arrs h
-  refine C03_wf {} exFields exRows arrs ?_ ?_ ?_ ?_ h
+  refine C03_wfS {} exFields exRows arrs ?_ ?_ ?_ ?_ h
   · simp [exFields, Lemmas.C03.SchemaOKF, Lemmas.C03.SchemaOK]
   · intro root0 h0
     rw [show newRoot exFields = .ok (.struct "$" 0 none
@@ -647,14 +651,14 @@ example : ∀ arrs, toMarrow {} exFields exRows = .ok arrs →
   · simp [exRows, Lemmas.C03.SValOK, Lemmas.C03.SFieldsOK, Lemmas.C03.SValsOK, Lemmas.C03.ScalarOK, IntTy.inRange,
       IntTy.min, IntTy.max]
 
-/-! `C03_wf` without `rawOK`: rows may carry raw key/value call streams.  Into a Map column the stream that does not
+/-! `C03_wfS` without `rawOK`: rows may carry raw key/value call streams.  Into a Map column the stream that does not
 alternate is refused (`Props.C01.map_refuses_non_alternating`) — `to_marrow` is an error, there is no array to speak
 about; the alternating one is accepted and the Map array is well formed with one row. -/
 example : (toMarrow {} Props.C01.exMapFields
     [.record "R" (.cons "m" 0 (.mapRaw (.key (.str "x") (.key (.str "") .nil))) .nil)]).isErr = true := by decide +kernel
 example : (match toMarrow {} Props.C01.exMapFields
       [.record "R" (.cons "m" 0 (.mapRaw (.key (.str "x") (.value (.int .i32 1) .nil))) .nil)] with
-    | .ok [a] => Props.C01.exMapFields.all (fun f => WF f a) && (decodeAll a).length == 1
+    | .ok [a] => Props.C01.exMapFields.all (fun f => WFS f a) && (decodeAll a).length == 1
     | _ => false) = true := by decide +kernel
 
 end SaModel.Props.C03
